@@ -3,6 +3,7 @@ import Proofs.C11Exit
 import Proofs.C11Range
 import Proofs.C11Stream
 import Proofs.C11Visits
+import Proofs.C11OpLog
 /-!
 # C11 — input bookkeeping: NR, FNR, FILENAME, operands, getline, ranges, next, exit
 
@@ -30,7 +31,7 @@ theorem nr_counts (fuel : Nat) (p : Prog) (s : St) (h0 : Initial s) :
 
 /-- a fresh interpreter before any input was touched: operand cursor at ARGV[1], no scanner, no input seen -/
 def Fresh (s : St) : Prop :=
-  s.idx = 1 ∧ s.cur = none ∧ s.hadFiles = false ∧ s.takes = [] ∧ s.edited = false
+  s.idx = 1 ∧ s.cur = none ∧ s.hadFiles = false ∧ s.takes = [] ∧ s.edited = false ∧ s.ilog = []
 
 /-- **operands_in_order / fnr_restarts / filename_current.** For every program, world and fuel: as long as the program has not
 assigned ARGV / ARGC nor executed nextfile (`edited = false`, a ghost flag those steps set), the records taken from the main
@@ -42,7 +43,7 @@ theorem operands_in_order (fuel : Nat) (p : Prog) (s : St) (h0 : Fresh s) :
     (run fuel p s).2.edited = false →
     (((run fuel p s).2.takes.map TakeInfo.item).reverse ++ pending (run fuel p s).2 =
       streamSpec s.fs (operandsFrom s.argv 1 (s.argc - 1)) false s.stdin) := by
-  obtain ⟨hidx, hcur, hhad, htakes, -⟩ := h0
+  obtain ⟨hidx, hcur, hhad, htakes, -, hilog⟩ := h0
   have hinv : StreamInv (streamSpec s.fs (operandsFrom s.argv 1 (s.argc - 1)) false s.stdin) s := by
     intro _
     simp [pending, remaining, hidx, hcur, hhad, htakes]
@@ -58,7 +59,7 @@ whole stream: every record of every operand was delivered exactly once, in order
 theorem whole_stream_taken (fuel : Nat) (rules : List Rule) (fl : List Bool) (s s2 : St) (h0 : Fresh s)
     (hm : mainLoop fuel rules fl s = (.normal, s2)) (he : s2.edited = false) :
     (s2.takes.map TakeInfo.item).reverse = streamSpec s.fs (operandsFrom s.argv 1 (s.argc - 1)) false s.stdin := by
-  obtain ⟨hidx, hcur, hhad, htakes, -⟩ := h0
+  obtain ⟨hidx, hcur, hhad, htakes, -, hilog⟩ := h0
   have hinv : StreamInv (streamSpec s.fs (operandsFrom s.argv 1 (s.argc - 1)) false s.stdin) s := by
     intro _
     simp [pending, remaining, hidx, hcur, hhad, htakes]
@@ -69,6 +70,21 @@ theorem whole_stream_taken (fuel : Nat) (rules : List Rule) (fl : List Bool) (s 
   simp only at h2
   rw [h2, List.append_nil] at h3
   exact h3
+
+/-- **var=value operands are assigned at the moment they are reached.** The unified ghost log of operand fetches and record
+deliveries, followed by what is still to come, is `logSpec`: the operands left to right, each immediately followed by the
+records it delivers. So an operand — in particular an assignment, which the walk applies in the very step that fetches it
+(`assign_applied_when_reached`) — is reached after every record of the earlier operands was taken and before any record of the
+later ones; an empty operand is fetched and delivers nothing. Same quantifiers and the same `edited = false` proviso. -/
+theorem operand_log_spec (fuel : Nat) (p : Prog) (s : St) (h0 : Fresh s) :
+    (run fuel p s).2.edited = false →
+    (run fuel p s).2.ilog.reverse ++ pendingL (run fuel p s).2 =
+      logSpec s.fs (operandsFrom s.argv 1 (s.argc - 1)) false s.stdin := by
+  obtain ⟨hidx, hcur, hhad, htakes, -, hilog⟩ := h0
+  have hinv : LogInv (logSpec s.fs (operandsFrom s.argv 1 (s.argc - 1)) false s.stdin) s := by
+    intro _
+    simp [pendingL, remaining, hidx, hcur, hhad, hilog]
+  exact run_preserves (logInv_stable _) fuel p s hinv
 
 /-- every step of the walk is one of these: an assignment operand is applied at the moment it is fetched — after the records
 of every earlier operand were delivered (the walk is only entered when the scanner is exhausted) and before any later operand
@@ -235,11 +251,17 @@ private def w0 : St :=
     argc := 4, varNames := [[118, 48]] }
 
 example : Initial w0 := ⟨rfl, rfl, rfl, rfl, rfl, rfl⟩
-example : Fresh w0 := ⟨rfl, rfl, rfl, rfl, rfl⟩
+example : Fresh w0 := ⟨rfl, rfl, rfl, rfl, rfl, rfl⟩
 
 /-- the specified stream of `w0`: k1's two records, then (after the assignment operand) k2's three, FNR restarting -/
 example : streamSpec w0.fs (operandsFrom w0.argv 1 (w0.argc - 1)) false w0.stdin =
     [([107, 49], 1, [112]), ([107, 49], 2, [113]), ([107, 50], 1, [97]), ([107, 50], 2, [98]), ([107, 50], 3, [99])] := by
+  decide +kernel
+
+/-- the unified log of `w0`: the assignment operand sits between the last record of k1 and the first of k2 -/
+example : logSpec w0.fs (operandsFrom w0.argv 1 (w0.argc - 1)) false w0.stdin =
+    [.op [107, 49], .record [107, 49] 1 [112], .record [107, 49] 2 [113], .op [118, 48, 61, 55], .op [107, 50],
+     .record [107, 50] 1 [97], .record [107, 50] 2 [98], .record [107, 50] 3 [99]] := by
   decide +kernel
 
 /-- no file operand: stdin, once; `-` twice: the second delivers nothing; empty operands are skipped -/
